@@ -94,6 +94,21 @@ CLAIMS.update({
    technique='contract-based deductive verification: AST symbolic execution over symbolic byte arrays, loop invariants, explicit instantiation, z3',
    design='4/C07'),
 })
+CLAIMS.update({
+ 'C01': dict(
+   category='proof',
+   text='Deductive per stage, content of ARBITRARY length (symbolic byte arrays): text->bytes policy of data_to_bytes (codecs uninterpreted); the five '
+        'packers of make_segment proved against the ISO field-level packing by loop invariants (value and width of every group, character count, bit length, '
+        'no value truncated); packing proved injective on the admitted inputs (numeric/alphanumeric groups, Shift JIS and GB2312 double bytes); '
+        'Buffer.append_bits linked to the bit level for widths 1..16; Segments.add_segment (representation invariant; a merged segment is the ISO packing of the '
+        'concatenated bytes); write_segment header fields (ECI, mode, Hanzi subset, count indicator) for all 44 versions x modes; count-fits-indicator lemma; '
+        'ECI assignment table; _encode glue; forwarding of the public factories. Remaining stages are the C13/C03/C06/C02 obligations. '
+        'A BOUNDED end-to-end stand-in (independent reference decoder on seeded real symbols) exercises the composition and is not counted as proved.',
+   note='Trusted: pyvc + z3; CPython codecs realise the named character sets; unique recovery of a prefix-coded field list from its flattening (mathematical); '
+        'composition of the stage inverses argued in DESIGN.md, exercised bounded.',
+   technique='contract-based deductive verification: stage contracts + inverse lemmas (loop invariants over symbolic byte arrays, z3); bounded reference-decoder stand-in for the composition',
+   design='4/C01'),
+})
 NOT_YET = {
 }
 ALL = ['C%02d' % i for i in range(1, 17)]
